@@ -8,6 +8,7 @@ import JanetModel.Lib.BufMemProofs
 import JanetModel.Lib.KmpProofs
 import JanetModel.Lib.SortProofs
 import JanetModel.Lib.RangeProofs
+import JanetModel.Lib.FormatProofs
 namespace JanetModel.Props.C17
 open JanetModel.Lib JanetModel.Gen.Lib
 
@@ -139,6 +140,21 @@ theorem insert_remove {α : Type} (a xs : List α) (i : Nat) (hi : i ≤ a.lengt
     (h32 : (a.length : Int) + xs.length ≤ int32Max) :
     (arrayInsert a i xs).bind (fun r => arrayRemove r i xs.length) = some a :=
   arrayInsert_remove a xs i hi h32
+
+/-! ### printf-style formatter, modelled subset (Lib/Format.lean: %% %d %i %x %X %o %c %s with flags / width / precision) -/
+
+/-- laws that keep the formatter definition honest: a format without directives is copied verbatim (arguments ignored);
+    `%<w>.<p>s` emits `max w (min p len)` bytes; a numeric conversion is never shorter than its field width.
+    Conformance of the definition to the C implementation is *tested* (correspondence on generated formats). -/
+theorem format_laws :
+    (∀ (s : Bytes) (args : List Format.FArg), (∀ c ∈ s, c ≠ 37 ∧ c ≠ 0) → Format.format s args = .ok s) ∧
+    (∀ f w p s, (Format.fmtString f w p s).length = max w (match p with | some p => min p s.length | none => s.length)) ∧
+    (∀ f w p n, w ≤ (Format.fmtSigned f w p n).length) :=
+  ⟨Format.format_plain, Format.fmtString_length, Format.fmtSigned_width⟩
+
+example : Format.format [37, 43, 48, 53, 100, 124, 37, 35, 120, 124, 37, 45, 52, 115, 124, 37, 46, 50, 115]
+    [.int 42, .int 255, .bytes [97, 98], .bytes [97, 98, 99]]
+    = .ok [43, 48, 48, 52, 50, 124, 48, 120, 102, 102, 124, 97, 98, 32, 32, 124, 97, 98] := by decide
 
 /-! ### `range` (corelib.c janet_core_range) -/
 
